@@ -332,6 +332,7 @@ class ConcatHistories(Contract):
     variant = "api-histories"
     symbolic = False
     has_native = True
+    native_shards = 4
     props = ("C04",)
     bounded_scope = "2 holes x data names {Au, Cu}; operation sequences of length <= 4 (quick: 60 seeded + 42 fixed; thorough: 600) over add / add-with-NaN / remove a whole hole (through the workspace or the group, also straight after a re-open) / copy the group inside the workspace / data stored on the group itself / values attached to a hole as a whole, added and removed in sessions that do nothing else / an idle open-list-close session (file digests unchanged) / interval data in a property group with the group-wide table view compared after every step / a copy into a second workspace edited there / add-text (each text longer than all earlier ones) / update / update-text / remove / re-open; both format versions; per-hole read-back after every step, raw file tiling after every close"
 
